@@ -41,8 +41,9 @@ class Program:
 
 class Family:
     def __init__(self, name, gen, lang="python", quick=None, thorough=None, hostile=False, doc="",
-                 growth=True):
+                 growth=True, big=()):
         self.name, self.gen, self.lang, self.hostile, self.doc = name, gen, lang, hostile, doc
+        self.big = tuple(big)          # extra large sizes, run without --enable-p2 only
         self.quick = quick if quick is not None else QUICK_NS
         self.thorough = thorough if thorough is not None else THOROUGH_NS
         self.growth = growth           # n is a size parameter along which growth ratios are meaningful
@@ -56,7 +57,7 @@ class Family:
         return Program(self.name, n, variant, self.lang, files, self.doc)
 
 
-QUICK_NS = (2, 5, 8, 9, 10, 11)
+QUICK_NS = (3, 8, 9, 10, 11)
 THOROUGH_NS = tuple(range(1, 17))
 FAMILIES = {}
 
@@ -189,14 +190,14 @@ def branch_n(n, rng, variant):
 
 @family("branch_fold")
 def branch_fold(n, rng, variant):
-    """a variable with n constant values (n-way branch) is combined with itself by binary operators three times:
-    every fold enumerates the pairs of abstract values"""
+    """a variable with n + 1 constant values (n-way branch) is combined with itself by a binary operator: the fold
+    enumerates the pairs of abstract values"""
     lines = ["def entry(req):", "    x = 1"]
     for i in range(n):
         kw = "if" if i == 0 else "elif"
         lines.append(f"    {kw} req == {i}:")
         lines.append(f"        x = {i + 2}")
-    lines += ["    y = x + x", "    z = y + x", "    w = z * 2", "    sink(w)", "    sink(req)", "    return w", ""]
+    lines += ["    sink(req)", "    y = x + x", "    w = y * 2", "    return w", ""]
     return "\n".join(lines) + PY_TAIL
 
 
@@ -204,11 +205,30 @@ def branch_fold(n, rng, variant):
 def fold_depth(n, rng, variant):
     """a two-valued variable is combined with itself n times in a row (x = x + x): the number of abstract values
     must not square at every step"""
-    lines = ["def entry(req):", "    x = 1", "    if req:", "        x = 2"]
+    lines = ["def entry(req):", "    sink(req)", "    x = 1", "    if req:", "        x = 2"]
     for i in range(n):
         lines.append("    x = x + x" if variant % 2 == 0 else f"    x{i + 1} = x{i if i else ''} + x{i if i else ''}")
     last = "x" if variant % 2 == 0 else f"x{n}"
-    lines += [f"    sink({last})", "    sink(req)", f"    return {last}", ""]
+    lines += [f"    return {last}", ""]
+    return "\n".join(lines) + PY_TAIL
+
+
+@family("fold_double", hostile=True)
+def fold_double(n, rng, variant):
+    """a 128-character string constant is concatenated with itself n times (s = s + s): the folded value doubles
+    per line (10^6 bits at n = 10)"""
+    lines = ["def entry(req):", "    sink(req)", "    s = '%s'" % ("ab" * 64)]
+    lines += ["    s = s + s"] * n
+    lines += ["    return s", ""]
+    return "\n".join(lines) + PY_TAIL
+
+
+@family("fold_square", hostile=True)
+def fold_square(n, rng, variant):
+    """a 1024-bit integer constant is multiplied with itself n times (x = x * x): the folded value squares per line"""
+    lines = ["def entry(req):", "    sink(req)", "    x = %d" % (3 ** 646)]
+    lines += ["    x = x * x"] * n
+    lines += ["    return x", ""]
     return "\n".join(lines) + PY_TAIL
 
 
@@ -319,7 +339,7 @@ def aliases_n(n, rng, variant):
     return "\n".join(lines) + PY_TAIL
 
 
-@family("binop_chain")
+@family("binop_chain", big=(64,))
 def binop_chain(n, rng, variant):
     """one expression that is a chain of 8n binary operations on constants (int or str in variant 1)"""
     m = 8 * n
@@ -330,7 +350,7 @@ def binop_chain(n, rng, variant):
     return f"def entry(req):\n    x = {expr}\n    y = x + req\n    sink(y)\n    return x\n" + PY_TAIL
 
 
-@family("long_flow", quick=(2, 5, 8, 9, 10, 11, 40), thorough=tuple(range(1, 17)) + (32, 64, 128))
+@family("long_flow", big=(64,), thorough=tuple(range(1, 17)) + (32,))
 def long_flow(n, rng, variant):
     """a straight data-flow chain of 8n assignments from the source to the sink"""
     m = 8 * n
@@ -341,7 +361,7 @@ def long_flow(n, rng, variant):
     return "\n".join(lines) + PY_TAIL
 
 
-@family("deep_expr", quick=(2, 5, 8, 9, 10, 11, 24), thorough=tuple(range(1, 17)) + (24, 32, 48))
+@family("deep_expr", big=(64,), thorough=tuple(range(1, 17)) + (24,))
 def deep_expr(n, rng, variant):
     """one expression nested 4n deep (parentheses around binary operations, call arguments, list literals)"""
     d = 4 * n
@@ -363,8 +383,8 @@ def deep_expr(n, rng, variant):
 # =========================================================================================================
 # hostile constants.  n is the *scale* of the constant: the program text grows by one digit per step while the
 # value of the constant grows by a factor of ten.
-HOSTILE_QUICK = (1, 2, 3, 4, 5, 6, 7)
-HOSTILE_THOROUGH = (1, 2, 3, 4, 5, 6, 7, 8)
+HOSTILE_QUICK = (2, 4, 5, 6)
+HOSTILE_THOROUGH = (1, 2, 3, 4, 5, 6, 7)
 
 
 def _hostile(expr):
@@ -389,20 +409,20 @@ def hostile_pow(n, rng, variant):
     return _hostile(f"7 ** {10 ** n}")
 
 
-@family("hostile_pow_tower", quick=(1, 2, 3), thorough=(1, 2, 3), hostile=True, growth=False)
+@family("hostile_pow_tower", quick=(1, 2), thorough=(1, 2, 3), hostile=True, growth=False)
 def hostile_pow_tower(n, rng, variant):
     """k = 9 ** 9 ** ... (tower of height n + 1; height 3 is the classic 9**9**9)"""
     return _hostile(" ** ".join(["9"] * (n + 1)))
 
 
-@family("hostile_literal", quick=(1, 2, 3, 4, 5), thorough=(1, 2, 3, 4, 5, 6), hostile=True, growth=False)
+@family("hostile_literal", quick=(2, 5), thorough=(1, 2, 3, 4, 5, 6), hostile=True, growth=False)
 def hostile_literal(n, rng, variant):
     """a single-line literal of 2 * 10**n characters (n = 5: 200 KB) that is concatenated with another one"""
     body = "ab" * (10 ** n)
     return f"def entry(req):\n    k = \"{body}\" + \"tail\"\n    y = k + req\n    sink(y)\n    return y\n" + PY_TAIL
 
 
-@family("hostile_concat", quick=(2, 5, 8, 9, 10, 11, 32), thorough=tuple(range(1, 17)) + (32, 64), hostile=True)
+@family("hostile_concat", big=(32,), hostile=True)
 def hostile_concat(n, rng, variant):
     """a chain of 4n string concatenations, every operand 64 characters (the folded value grows linearly, the
     total text evaluated quadratically)"""
